@@ -219,7 +219,25 @@ def leaf(cfg):
     return leaf(cfg["inner"]) if cfg["k"] == "pb" else cfg
 
 
+def written_failures(I, cfg, out):
+    """the bytes a round trip is about are the bytes `write_into` hands to the caller: every
+    successful write of the request (whatever the length and the previous contents of the buffer,
+    and whatever was written or refused before it) must be the packet that parses back"""
+    if gen.violations(cfg) or cfg.get("_size_only") or cfg.get("_big"): return
+    want = gen.encode(cfg)
+    cw = canon_image(cfg, want)
+    for k in sorted(I):
+        if not (k.startswith("w") and k.endswith(".res") and I[k].startswith("ok:")): continue
+        n = int(I[k][3:])
+        got = unhex(I.get(k[:-4] + ".buf", ""))[:n]
+        if n != len(want) or canon_image(cfg, got) != cw:
+            j = next((x for x in range(min(len(got), len(want))) if got[x] != want[x]), min(len(got), len(want)))
+            out.append(f"{k[:-4]}: write_into returned {I[k]} and wrote {got[max(0, j - 4):j + 8].hex()} at byte {j}, the packet is {len(want)} bytes with {want[max(0, j - 4):j + 8].hex()} there")
+            return
+
+
 def rt_common(I, cfg, out, count=None):
+    written_failures(I, cfg, out)
     if I.get("rt.res") != "ok":
         out.append(f"builder accepted (size={I.get('size')}) but the matching parser says rt.res={I.get('rt.res')}")
         return False
@@ -399,6 +417,40 @@ def size_of(I):
     return int(s[3:]) if s.startswith("ok:") else None
 
 
+def rewrite_failures(I):
+    """writing the same builder again into the same buffer, after the caller changed bytes 8..n of
+    it, must give the same bytes again (C06: the size written is the size announced, on every call;
+    C17: what is written does not depend on what the buffer held)"""
+    return [f"second write of the same builder into the same buffer (bytes 8.. overwritten in between) differs: {k}={v}"
+            for k, v in sorted(I.items()) if k.endswith(".rewrite_same") and v != "true"]
+
+
+def oracle_interleave(ctx, i):
+    """(interleave A B): both builders sized first, then both written with write_into_unchecked into
+    buffers of exactly their size: each must come out as if it had been built alone"""
+    I, meta = ctx.I[i], ctx.metas[i]
+    out = []
+    for side in ("a", "b"):
+        cfg = meta["cfgs"][side]
+        v = gen.violations(cfg)
+        s = I.get(side + ".size", "")
+        if v:
+            if not s.startswith("err:"): out.append(f"{side}: configuration violates {v[0]} but size calculation said {s}")
+            elif s[4:] not in v: out.append(f"{side}: error {s[4:]} names none of the violated rules {v[:4]}")
+            continue
+        want = gen.encode(cfg)
+        if s != f"ok:{len(want)}":
+            out.append(f"{side}: size {s}, the configuration encodes to {len(want)} bytes"); continue
+        if side + ".res" not in I: continue        # the other builder was refused: nothing written
+        if I[side + ".res"] != f"ok:{len(want)}":
+            out.append(f"{side}: write_into_unchecked returned {I[side + '.res']}, size was {len(want)}"); continue
+        got = unhex(I.get(side + ".buf", ""))
+        if canon_image(cfg, got) != canon_image(cfg, want):
+            j = next((x for x in range(min(len(got), len(want))) if got[x] != want[x]), min(len(got), len(want)))
+            out.append(f"{side}: written after sizing the other builder: differs from the packet built alone at byte {j}: {got[max(0,j-4):j+8].hex()} vs {want[max(0,j-4):j+8].hex()}")
+    return out
+
+
 def oracle_C06(ctx, i):
     I, meta = ctx.I[i], ctx.metas[i]
     if meta.get("op") != "build": return []
@@ -431,7 +483,7 @@ def oracle_C06(ctx, i):
             if r != want: out.append(f"size={s}, buffer {L}: write_into returned {r}, expected {want}")
         elif s.startswith("err:") and r != s:
             out.append(f"size={s} but write_into returned {r}")
-    return out
+    return out + rewrite_failures(I)
 
 
 def canon_image(cfg, b):
@@ -511,7 +563,7 @@ def oracle_C17(ctx, i):
         else:
             if after != before:
                 out.append(f"failed write ({r}) modified the buffer")
-    return out
+    return out + rewrite_failures(I)
 
 
 # ------------------------------------------------------------------------------------------------
@@ -869,7 +921,16 @@ def oracle_C11(ctx, i):
 
 def oracle_C12(ctx, i):
     I, meta = ctx.I[i], ctx.metas[i]
-    out = []
+    out = again_failures(I) + shift_failures(I) if meta.get("op") == "parse" else []
+    if meta.get("op") == "parse" and meta.get("kind") == "unknown" and I.get("res") == "ok" and i > 0:
+        # the same bytes went through the generic parser in the request before: an unknown packet's
+        # conversions must say what the typed parsers said there
+        pm, T = ctx.metas[i - 1], ctx.I[i - 1]
+        if pm.get("op") == "parse" and pm.get("kind") == "packet" and pm.get("bytes") == meta["bytes"]:
+            for k in KNOWN:
+                for cv in ("as", "aso"):
+                    if f"{cv}.{k}" in I and f"typed.{k}" in T and I[f"{cv}.{k}"] != T[f"typed.{k}"]:
+                        out.append(f"Unknown {cv}<{k}>={I[f'{cv}.{k}']} but {k}::parse={T[f'typed.{k}']} on the same bytes")
     for p, kind, b in view_prefixes(meta):
         if kind != "packet" or len(b) < 4: continue
         V = pfx(I, p)
@@ -924,7 +985,16 @@ CONTENT_SKIP = ("res", "version", "type", "length", "padding", "strs", "is_unkno
 
 def oracle_C13(ctx, i):
     I, meta = ctx.I[i], ctx.metas[i]
-    if meta.get("op") == "parse": return again_failures(I)     # padded witnesses of the corpus
+    if meta.get("op") == "parse":
+        # padded packets parsed directly (corpus witnesses, and sequences of padded packets that share
+        # address, length, header word and SSRC but split payload and padding differently): what the
+        # content accessors return ends where the padding begins, whatever was parsed before
+        out = again_failures(I) + shift_failures(I)
+        if I.get("res") == "ok":
+            k = kind_name(meta["kind"])
+            if k == "packet": k = I.get("variant", "unknown")
+            if k in ("sr", "rr", "app", "bye", "tfb", "pfb"): c09_view(I, k, meta["bytes"], out, "")
+        return out
     if meta.get("op") != "pad": return []
     b, n = meta["bytes"], meta["n"]
     if I.get("a.res") != "ok" or len(b) < 4 or b[0] & 0x20 or n % 4 or not 4 <= n <= 252: return []
@@ -1001,6 +1071,20 @@ def oracle_C14(ctx, i):
                 for key in ("variant", "version", "type", "count", "length", "padding", "ssrc", "ssrcs", "n_reports", "chunks", "sender_ssrc", "media_ssrc", "name"):
                     if T.get(key) != I.get(f"rt.p{j}.{key}"):
                         out.append(f"member {j}: {key}={I.get(f'rt.p{j}.{key}')} in the compound, {T.get(key)} on its own")
+        else:
+            # no companion requests: one packet per member, in order, of the member's type and length,
+            # as long as the members are packets the generic parser accepts (all but raw unknown /
+            # third-party images that carry a known type number with a body of another shape)
+            plain = all(l["k"] not in ("unknown", "custom") or variant_of(l) == "unknown" for l in leaves)
+            if plain:
+                if I.get("rt.n") != str(len(leaves)):
+                    out.append(f"parsing back yields {I.get('rt.n')} packets for {len(leaves)} members")
+                for j, l in enumerate(leaves):
+                    if I.get(f"rt.p{j}.res") not in ("ok", None) or j >= int(I.get("rt.n", "0") or 0): continue
+                    if I.get(f"rt.p{j}.variant") != variant_of(l):
+                        out.append(f"member {j} is a {variant_of(l)} packet and parses back as {I.get(f'rt.p{j}.variant')}")
+                    if I.get(f"rt.p{j}.length") != str(len(gen.encode(l))):
+                        out.append(f"member {j} is {len(gen.encode(l))} bytes long and parses back with length {I.get(f'rt.p{j}.length')}")
     return out
 
 
